@@ -84,4 +84,13 @@ theorem plan_removal_keeps_blobs :
       !(Plan.trace f).isEmpty && Plan.free (b!"blobs") (Plan.trace f) && Plan.free (b!"Blob") (Plan.trace f)) = true := by
   decide
 
+/-- C15.6  a row id is taken only from an insert that inserts: every `LastInsertId()` in the database layer follows a plain
+`INSERT` — not `INSERT OR IGNORE`, not `… ON CONFLICT …`, after which SQLite's last row id is that of some *earlier* insert on
+the connection (another user's blob, another user's account). The de-duplicating paths look the existing row up instead.
+Regenerated from /repo on every run; ten sites (blobs, messages, parts, mailboxes, users, domains, role mailboxes). -/
+theorem ids_from_plain_inserts :
+    Gen.insertIds.all (fun r => r.2 = (b!"plain")) = true ∧ Gen.insertIds.length = 10 ∧
+    Gen.insertIds.any (fun r => r.1 = (b!"db.StoreBlobWithEncoding")) = true ∧
+    Gen.insertIds.any (fun r => r.1 = (b!"db.GetOrCreateUserInitialized")) = true := by decide
+
 end Raven.Props.C15
